@@ -45,6 +45,10 @@ def inject(I, tree, specs, defect, pos):
     mods = tree['Modules']
     names = list(mods)
     nets = tree.get('Nets', [])
+    for mname in names:
+        rl = mods[mname].get('rectangles')
+        if rl is not None and not isinstance(rl[0], list):
+            mods[mname]['rectangles'] = [rl]
 
     def nth(cands):
         return cands[pos] if pos < len(cands) else None
@@ -192,6 +196,7 @@ def body(I, case):
         I.prove('rectangles-as-written', len(m.rectangles) == len(s['rects']) and And(*[
             Or(*[And(Eq(r.center.x, q[0]), Eq(r.center.y, q[1]), Eq(r.shape.w, q[2]), Eq(r.shape.h, q[3]), r.region == q[4])
                  for r in m.rectangles]) for q in s['rects']]))
+        I.prove('rectangle-flags-follow-the-module', all(r.fixed == s['fixed'] and r.hard == s['hard'] for r in m.rectangles))
         allr += list(m.rectangles)
         if s['fixed']:
             fixedr += list(m.rectangles)
